@@ -119,8 +119,42 @@ def enum_large_ratio(tier):
                "order": ["M1", "M2", "M0"], "end": r + 9, "excluded": ["info:large-step-ratio"], "tick_us": 333333}
 
 
+def check_merger_delay(spec, ctx):
+    """two producers with different start times feed a pull-based multi-input component (WeightedSum); a consumer
+    without initial pull reads it through a fixed delay. While the delay is in its warm-up the request is clamped to the
+    time the merger advertises (the start of one of its sources) and forwarded to *every* source: the driver has to bring
+    all of them there first. Oracle: the run completes and every pull at the announced time succeeds."""
+    outcome, msg, trace, _b = S.run(spec)
+    ctx.nontrivial(True)
+    ctx.event(f"outcome={outcome}")
+    info = f" | starts {[c.get('start') for c in spec['comps'] if c['kind'] == 'model']} links {spec['links']} order {spec['order']}"
+    if outcome != "ok":
+        ctx.violation(f"run-fails:{outcome}", f"{(msg or '')[:200]}" + info)
+        return
+    for ev in trace:
+        if ev[0] == "pull" and ev[4] != "ok":
+            ctx.violation("pull-fails", f"{ev[1]}.{ev[2]} pull at {ev[3]} failed: {ev[5]}" + info)
+            return
+
+
+def enum_merger_delay(tier):
+    def m(n, start, ins, **k):
+        return dict({"kind": "model", "name": n, "start": start, "steps": [1], "ins": ins, "outs": ["o"], "units": ""}, **k)
+
+    import itertools
+
+    orders = [["C0", "W", "P0", "P1"], ["P0", "P1", "W", "C0"], ["P1", "C0", "W", "P0"], ["W", "P0", "C0", "P1"]]
+    for off, d, order, first, nopull in itertools.product((1, 3, 10), (2, 5), orders, ("A", "B"), (True, False)):
+        comps = [m("P0", 0, []), m("P1", off, []), {"kind": "wsum", "name": "W", "inputs": ["A", "B"] if first == "A" else ["B", "A"]},
+                 m("C0", 0, ["i0"], no_pull=["i0"] if nopull else [])]
+        links = [["P0", "o", [], "W", "A"], ["P0", "o", [], "W", "A_weight"], ["P0", "o", [], "W", "B_weight"], ["P1", "o", [], "W", "B"],
+                 ["W", "WeightedSum", [["dfix", d]], "C0", "i0"]]
+        yield {"comps": comps, "links": links, "order": order, "end": off + 8, "excluded": ["info:merger-behind-delay"], "tick_us": None, "t0": None}
+
+
 def parts():
     return [
+        Part("merger_delay_enum", check_merger_delay, enumerate=enum_merger_delay, exhaustive=True),
         Part("compositions", check, strategy=spec_st, strategy_thorough=spec_deep, budget={"quick": 1600, "thorough": 100000}, fuzz={"thorough": 6000}),
         Part("large_ratio_enum", check, enumerate=enum_large_ratio, exhaustive=True),
     ]
